@@ -12,3 +12,16 @@ func verifPoint(id string) {
 		h(id)
 	}
 }
+
+// VerifTraceHook, when set, receives every step of the locking protocol (lookups, placeholder
+// claims, waits, lock acquisitions, validations, publications, unlinks, releases) with the
+// identity of the transaction and of the record. Every event is emitted inside the critical
+// section that makes its step atomic (lock events: after the acquisition, before the release),
+// so the order of the events is an order in which the steps can have happened.
+var VerifTraceHook func(ev string, who any, key string, rec any, flag bool)
+
+func verifTrace(ev string, who any, key string, m *metadata, flag bool) {
+	if h := VerifTraceHook; h != nil {
+		h(ev, who, key, m, flag)
+	}
+}
